@@ -20,7 +20,7 @@ RULE = (
     "context equal a private RandomState(seed), the global state afterwards is bit-identical to before. Part 'models': every "
     "function under pyxel.models with a 'seed' parameter is discovered by introspection; each has a recipe (detector type, "
     "minimal arguments, pre-filled buckets) - same seed from two different prior states must give identical buckets and leave "
-    "the state untouched; functions without a recipe are listed as skipped. Part 'runs': generated pipelines of stochastic "
+    "the state untouched, on a detector with a single readout and on one standing at the second of three readouts; functions without a recipe are listed as skipped. Part 'runs': generated pipelines of stochastic "
     "library models and a stochastic probe with a pipeline_seed, in exposure / sequential observation / dask observation / "
     "calibration, with or without outputs written into one parent folder (the second start finds the first one's folder name taken), executed twice from different prior states (and after an unseeded or a failing run): bit-identical results, "
     "state restored, also when a model raises mid-run. Part 'leak': model functions that draw random numbers without a seed "
@@ -116,7 +116,7 @@ def discover_seeded():
     return sorted(set(out))
 
 
-def _fill(det, level=500.0):
+def _fill(det, level=500.0, later=False):
     shp = det.geometry.shape
     rng = np.random.RandomState(7)
     det.empty()
@@ -124,6 +124,12 @@ def _fill(det, level=500.0):
     det.charge.add_charge_array(rng.uniform(level, 2 * level, size=shp))
     det.pixel.array = rng.uniform(level, 2 * level, size=shp)
     det.signal.array = rng.uniform(0.1, 2.0, size=shp)
+    if later:  # the clock of the second of three readouts, as the exposure loop sets it
+        det.set_readout(times=[1.0, 2.0, 3.0])
+        det.time_step = 1.0
+        det.time = 2.0
+        det.pipeline_count = 1
+        return
     det.set_readout(times=[1.0])
     det.time_step = 1.0
     det.time = 1.0
@@ -201,7 +207,9 @@ def _materialise(kwargs, tmp):
 
 def model_cases():
     return [{"func": f, "variant": v, "seed": s, "k1": 11, "j1": 0, "k2": 99, "j2": 5}
-            for f in discover_seeded() for v in range(len(RECIPES.get(f, [None]))) for s in (0, 12345, 2**32 - 1)]
+            for f in discover_seeded() for v in range(len(RECIPES.get(f, [None]))) for s in (0, 12345, 2**32 - 1)] + \
+           [{"func": f, "variant": v, "seed": 12345, "k1": 11, "j1": 0, "k2": 99, "j2": 5, "later_readout": True}  # the detector is at the 2nd of 3 readouts
+            for f in discover_seeded() for v in range(len(RECIPES.get(f, [None])))]
 
 
 def body_models(case, rec):
@@ -216,7 +224,7 @@ def body_models(case, rec):
     var = RECIPES[name][case.get("variant", 0)]
     typ, kwargs = var["type"], _materialise(var["kwargs"], rec.tmp)
     mod, fn = name.rsplit(".", 1)
-    rec.cls(f"variant:{fn}:{var['label']}")
+    rec.cls(f"variant:{fn}:{var['label']}", "detector_at_a_later_readout" if case.get("later_readout") else "single_readout")
     func = getattr(importlib.import_module(mod), fn)
     spec = simple_spec(typ, row=var["shape"][0], col=var["shape"][1])
     spec["environment"]["temperature"] = 300.0 if typ != "APD" else 80.0
@@ -225,7 +233,7 @@ def body_models(case, rec):
     outs, states = [], []
     for (k, j) in ((case["k1"], case["j1"]), (case["k2"], case["j2"])):
         det = build_detector(spec)
-        _fill(det)
+        _fill(det, later=bool(case.get("later_readout")))
         before = _set_prior(k, j)
         try:
             func(det, seed=case["seed"], **kwargs)
@@ -250,7 +258,7 @@ def body_models(case, rec):
         rec.check(same, f"seeded_model_not_reproducible:{fn}", f"options {var['label']}: {b} differs between two calls with seed {case['seed']}")
     # and it really is stochastic: an unseeded call from another state gives something else (vacuity guard, not a verdict)
     det = build_detector(spec)
-    _fill(det)
+    _fill(det, later=bool(case.get("later_readout")))
     _set_prior(5, 1)
     try:
         func(det, **kwargs)
